@@ -84,6 +84,9 @@ def poisson(
 
         if abs(actual_accel - accel) < tol:
             break
+        if slope == slope_min or slope == slope_max:
+            # the interval cannot shrink any further
+            break
         if actual_accel < accel:
             slope_min = slope
         else:
